@@ -18,6 +18,9 @@ def chain_with_counts(r, coin, counts, genesis):
             wd = {'in': r.choice([3, 5, 9]), 'out': r.choice([3, 5, 9]), ('isl', 0): r.choice([3, 5, 9]), ('osl', 0): r.choice([3, 5, 9])} if j % 7 == 3 else None
             txs.append(Tx([(gen.rb(r, 32), j & 3, b'\x51' if j % 3 else b'', 0xffffffff)], [(j, P2PKH(gen.rb(r, 20)))], witness=wit, widths=wd))
         if n == 1 and h % 2 == 1: txs[0] = Tx(txs[0].inputs, txs[0].outputs, widths={'in': 3, ('osl', 0): 5})
+        if n >= 3 and h % 2 == 0:
+            # the same transaction twice in one merkle pair (the CVE-2012-2459 shape): the three conditions of the property hold, so the chain is consistent
+            if len(txs) % 2 == 1: txs.append(txs[-1])
         if h % 3 == 1:      # scripts and witness items beyond every script-execution limit (10 000 / 520 bytes) are legal block content
             big = r.choice([10001, 12000, 70000])
             txs.append(Tx([(gen.rb(r, 32), 0, gen.rb(r, r.choice([0, big])), 0)], [(1, b'\x6a' + gen.rb(r, big)), (2, P2PKH(gen.rb(r, 20)))], witness=([[gen.rb(r, big), b'\x01']] if h % 2 else None)))
@@ -77,7 +80,7 @@ def corrupt(case, blocks, h, where, r):
 
 def explore(ck):
     r = ck.rng; quick = ck.tier == 'quick'
-    ck.rule = ('consistent chains with 1..%d transactions per block (every merkle tree shape up to 3 levels wide of 128+: counts %s), block 0 the real genesis block of 7 coins or --start >= 1; scripts and witness items of 10 001..70 000 bytes, over-long CompactSize encodings in every 7th transaction and in block transaction counts (the txid commits to the on-disk bytes); '
+    ck.rule = ('consistent chains with 1..%d transactions per block (every merkle tree shape up to 3 levels wide of 128+: counts %s), block 0 the real genesis block of 7 coins or --start >= 1; plaintext and XOR-obfuscated directories; scripts and witness items of 10 001..70 000 bytes, over-long CompactSize encodings in every 7th transaction and in block transaction counts (the txid commits to the on-disk bytes); '
                'each chain is also run with one bit flipped in the merkle-root field, the prev-hash field, transaction bytes covered by a txid (version/outpoint/value/locktime; the top bit of an input count, script length or output count, which in the last block makes the parser run past the end of the file) or a witness byte '
                '(not covered: must still pass), at every --start offset incl. corruption exactly at the first processed block and outside the range; expected from the generator: fails at the corrupted '
                'height iff it is processed. Non-trivial: passing case with >= 2 txs in a block, or a corrupted case; distinct by (counts, start, corruption).' % ((258 if quick else 1025), COUNTS_Q if quick else COUNTS_T))
@@ -94,6 +97,7 @@ def explore(ck):
         for h, b in enumerate(blocks):
             off = base.put_block(0, b.raw); base.add_record(b, h, 0, off); place[h] = (0, off)
         base.verify = True; base.meta.update(counts=counts, place=place)
+        if i % 4 == 1: base.xor = gen.rb(r, r.choice([8, 8, 3, 13]))      # --verify over an obfuscated directory (with --start: the block before the range lies at an arbitrary key phase)
         starts = [0] if genesis else []
         starts += [s for s in range(1, nb)]
         for s in (starts if not quick else starts[:2] + starts[-1:]):
